@@ -94,14 +94,18 @@ type c15Cfg struct {
 	Signal      string `json:"signal"`
 	Transport   string `json:"transport"` // grpc | http-proto | http-json
 	Compression string `json:"compression"`
-	Outcome     string `json:"consumer_outcome"`
-	RetryMs     int    `json:"retry_info_ms"` // -1 = no RetryInfo
-	Auth        bool   `json:"server_authenticator"`
-	Creds       bool   `json:"client_sends_credentials"`
-	Rich        string `json:"payload_enrichment,omitempty"`
-	Prelude     string `json:"earlier_request,omitempty"` // "", "accepted", "refused"
-	Empty       bool   `json:"empty_payload"`
-	Raw         string `json:"raw_request,omitempty"`
+	// Level: compression_params.level of the HTTP exporter (0 = the codec's default); Bulk: size of one large
+	// attribute value added to the payload (0 = none), so that the request spans several codec blocks
+	Level   int    `json:"compression_level,omitempty"`
+	Bulk    int    `json:"bulk_attribute_bytes,omitempty"`
+	Outcome string `json:"consumer_outcome"`
+	RetryMs int    `json:"retry_info_ms"` // -1 = no RetryInfo
+	Auth    bool   `json:"server_authenticator"`
+	Creds   bool   `json:"client_sends_credentials"`
+	Rich    string `json:"payload_enrichment,omitempty"`
+	Prelude string `json:"earlier_request,omitempty"` // "", "accepted", "refused"
+	Empty   bool   `json:"empty_payload"`
+	Raw     string `json:"raw_request,omitempty"`
 }
 
 // The OTLP specification's gRPC table: which codes a client may retry.
@@ -118,6 +122,28 @@ func specGRPCRetryable(c codes.Code, hasRetryInfo bool) bool {
 var allCodes = []codes.Code{codes.Canceled, codes.Unknown, codes.InvalidArgument, codes.DeadlineExceeded, codes.NotFound, codes.AlreadyExists,
 	codes.PermissionDenied, codes.ResourceExhausted, codes.FailedPrecondition, codes.Aborted, codes.OutOfRange, codes.Unimplemented, codes.Internal,
 	codes.Unavailable, codes.DataLoss, codes.Unauthenticated}
+
+// addBulkAttribute puts one large string attribute on the first resource of the payload (if it has one).
+func addBulkAttribute(sig string, payload any, v string) {
+	switch sig {
+	case sigLogs:
+		if x := payload.(plog.Logs).ResourceLogs(); x.Len() > 0 {
+			x.At(0).Resource().Attributes().PutStr("bulk", v)
+		}
+	case sigTraces:
+		if x := payload.(ptrace.Traces).ResourceSpans(); x.Len() > 0 {
+			x.At(0).Resource().Attributes().PutStr("bulk", v)
+		}
+	case sigProfiles:
+		if x := payload.(pprofile.Profiles).ResourceProfiles(); x.Len() > 0 {
+			x.At(0).Resource().Attributes().PutStr("bulk", v)
+		}
+	default:
+		if x := payload.(pmetric.Metrics).ResourceMetrics(); x.Len() > 0 {
+			x.At(0).Resource().Attributes().PutStr("bulk", v)
+		}
+	}
+}
 
 func runC15(r *simkit.Run) {
 	tp := r.Tape
@@ -282,6 +308,25 @@ func runC15(r *simkit.Run) {
 			r.Sample = cfg
 		}
 	}
+	if cfg.Transport != "grpc" {
+		switch cfg.Compression {
+		case "gzip", "zlib", "deflate":
+			cfg.Level = []int{0, 1, 6, 9, -2}[tp.Draw(5)]
+		case "zstd":
+			cfg.Level = []int{0, 1, 3, 6, 11}[tp.Draw(5)]
+		}
+	}
+	if !cfg.Empty && cfg.Mode != "raw" && tp.Chance(1, 10) {
+		cfg.Bulk = []int{140000, 300000, 1200000}[tp.Draw(3)]
+		var sb strings.Builder
+		seed := uint32(tp.Draw(1 << 30))
+		for sb.Len() < cfg.Bulk {
+			seed = seed*1664525 + 1013904223
+			fmt.Fprintf(&sb, "%08x ", seed) // hardly compressible text
+		}
+		addBulkAttribute(cfg.Signal, payload, sb.String()[:cfg.Bulk])
+	}
+	r.Sample = cfg
 	sent := p.bytes(payload)
 	r.Events++
 
@@ -345,6 +390,7 @@ func runC15(r *simkit.Run) {
 		ecfg := ef.CreateDefaultConfig().(*otlphttpexporter.Config)
 		ecfg.ClientConfig.Endpoint = fmt.Sprintf("http://127.0.0.1:%d", ph)
 		ecfg.ClientConfig.Compression = comp
+		ecfg.ClientConfig.CompressionParams = configcompression.CompressionParams{Level: configcompression.Level(cfg.Level)}
 		ecfg.ClientConfig.Headers = headers
 		ecfg.ClientConfig.Timeout = 10 * time.Second
 		ecfg.RetryConfig.Enabled = false
